@@ -756,4 +756,3 @@ func mentionsKeyVar(keys []string, v string) bool {
 	}
 	return false
 }
-
